@@ -36,7 +36,7 @@ CLAIMED = {
    note='file-object / csv buffering is not look-ahead; S is read live from iterable_storage.SAMPLE_SIZE',
    ref='6/C06'),
  'C07': dict(
-   technique='Lean 4 proof (extended-JSON codec round trip over nested typed values incl. any UTC offset; stream/unstream framing; run/delete history and checkpoint-chain state machines) + ejson/plan correspondence + history oracle on real code + code-skeleton obligation (checkpoint decides by existence of the final name only) + unstream correspondence + translator ties (Tie_preprocess_chain / Tie_checkpoint_handle / Tie_checkpoint_preprocess + plan_of_fold: Flow._preprocess_chain and the two checkpoint methods, re-translated on every run, compute Ckpt.planChain; Tie_ejson_default: the encoder dispatches every kind of value to the tag Ejson.enc uses, a datetime before a date) + pyeval correspondence of both',
+   technique='Lean 4 proof (extended-JSON codec round trip over nested typed values incl. any UTC offset; stream/unstream framing; run/delete history and checkpoint-chain state machines) + ejson/plan correspondence + history oracle on real code + code-skeleton obligation (checkpoint decides by existence of the final name only) + unstream correspondence + translator ties (Tie_preprocess_chain / Tie_checkpoint_handle / Tie_checkpoint_preprocess + plan_of_fold: Flow._preprocess_chain and the two checkpoint methods, re-translated on every run, compute Ckpt.planChain; Tie_ejson_default: the encoder dispatches every kind of value to the tag Ejson.enc uses, a datetime before a date; Tie_hook_*: the decoder's object_hook on single-tag and untagged objects = the clauses of Ejson.hook) + pyeval correspondence of all of them',
    text='C07_ejson_roundtrip is proved by structural induction over all nested values of the claimed domain with the fixed-width date/time formats and the offset arithmetic modelled concretely; C07_stream_unstream for any number of (possibly empty) resources; C07_history / C07_chain_last_wins by induction over histories / chains. Tied to the code by comparing the real tag tree and decoded value of generated typed values with the model, and the executed steps of real run/delete histories over chains of checkpoints with the model plan.',
    note='json text layer, Decimal str/constructor and isodate are assumed to round-trip (leaf parameters); sub-second parts are outside the proved domain (listed finding); user objects carrying tag keys are outside the domain',
    ref='6/C07'),
@@ -61,12 +61,12 @@ CLAIMED = {
    note='kvfile (last write wins, key order) is a parameter; avg/median quotients are compared as Python computes them from the same integers; numeric aggregates are generated over integers; unmatched / deduplicated rows are compared as multisets (their order is the key order of the key/value file); tie theorems hold for integer / text columns (sum, avg, median over integers); PyLite translator + evaluator are trusted and validated by the pyeval correspondence',
    ref='6/C11'),
  'C12': dict(
-   technique='Lean 4 proof (string order is a strict total order; fixed-width hex is an order embedding; flipped IEEE bit pattern orders like the value; key+separator+row-number compares as (key, row number); output is a sorted, stable permutation; reverse = exact reverse) + sortkey/sort correspondence + stable-sort oracle',
+   technique='Lean 4 proof (string order is a strict total order; fixed-width hex is an order embedding; flipped IEEE bit pattern orders like the value; key+separator+row-number compares as (key, row number); output is a sorted, stable permutation; reverse = exact reverse) + sortkey/sort correspondence + stable-sort oracle + translator tie (Tie_sort_key: KeyCalc's key function, re-translated from the working tree on every run, renders integer cells as the flipped bit pattern encNum and text as itself, in key order; bit array as an external object) + pyeval correspondence with the real BitArray operations + the table as a selected resource among others',
    text='C12_suffix_lex, C12_flip_monotone, C12_num_key_order, C12_sorted_stable, C12_perm, C12_reverse_exact hold for all keys over code points above the separator, all finite doubles and all tables below 16^8 rows. The real rendered keys and the real output order are compared with the model (mergeSort of the real keys), the numeric rendering with renderNum on the bit pattern, and the real output with an independent stable sort by the specification order, incl. tables above the 10240-entry cache.',
    note='bitstring packing = IEEE-754; kvfile ordered by key bytes; int/Decimal -> double conversion is monotone but not injective above 2^53 (listed finding); the empty string is null for Table Schema and not a key',
    ref='6/C12'),
  'C13': dict(
-   technique='Lean 4 proof (limiter = take n incl. 0; strip removes only surrounding whitespace; de-duplicated headers are unique for every header list and format, by a 7-clause loop invariant) + hdr/wrap correspondence + independent csv.reader oracle + wrapper-chain theorems (cast, strip, limit as lazy generators) with the order read from the source AST + translator tie (Tie_limiter / Tie_limiter_lazy: load.limiter, re-translated from the working tree on every run, yields exactly the first n rows and never asks the producer for row n+1) + pyeval correspondence of limiter and stripper',
+   technique='Lean 4 proof (limiter = take n incl. 0; strip removes only surrounding whitespace; de-duplicated headers are unique for every header list and format, by a 7-clause loop invariant) + hdr/wrap correspondence + independent csv.reader oracle + wrapper-chain theorems (cast, strip, limit as lazy generators) with the order read from the source AST + translator tie (Tie_limiter / Tie_limiter_lazy: load.limiter, re-translated from the working tree on every run, yields exactly the first n rows and never asks the producer for row n+1) + pyeval correspondence of limiter and stripper + Tie_stripper / stripCellS_model: load.stripper = Load.stripCell on every text cell, keys and order kept',
    text='C13_limit, C13_strip_only_whitespace and C13_dedup_unique hold for all tables / cells / header lists (headers that already look like generated names included). Real load() runs over generated CSV files and option combinations are compared with an independent csv.reader pass with the wrapper semantics applied, the real headers with the model of rename_duplicate_headers, the real rows with the model limiter/stripper, and package / (descriptor, iterators) sources with the selector specification.',
    note='tabulator parsing and Schema.infer are third-party (parse faithfulness by comparison only); schema casting is shared with C14; the `while True` of the numbering is modelled with fuel (termination by distinct candidates is argued, not proved)',
    ref='6/C13'),
